@@ -26,7 +26,8 @@ RULE = ('Generated Yahoo-format CSV files (1-2 symbols with different first date
         ' Round-5 reach: a source quoting a spread (ask = 1.25 x bid) behind the handler (handler ask == source ask, handler bid == source bid); a fresh source asked about several symbols at instants that jump back and forth in time (second-level offsets so that memoised answers are not reused).'
         " Round-10 reach: the first source of a case answers fresh instants again after every other source of the case and a differently priced decoy directory for the same symbols were built; a sixth of the files carry whole-number cells (no decimal point), some of ten digits."
         " Round-11 reach: a fresh source whose first requests are closing-price range queries (with and without `adjusted`) is priced through a handler afterwards, at instants +-0.4 s, +-0.6 s and +-1 us around the generated ones."
-        " Round-12 reach: bars that settle at exactly zero after a positive open (0/0 adjustment: the open is a missing value).")
+        " Round-12 reach: bars that settle at exactly zero after a positive open (0/0 adjustment: the open is a missing value)."
+        " Round-13 reach: files with extra vendor columns (Adj Open, Dividends, Stock Splits); queries inside the repeated hour of the autumn 2020 clock change written in New York / London time.")
 ASSUMPTIONS = [
     'well-formed CSV files with a Date column and unique dates (duplicate dates and header-only files are rejected by '
     'the loader and are not in the domain)',
@@ -111,7 +112,7 @@ def run_case(case):
     cls = set()
     nt = 0
     nq = 0
-    with market.csv_dir(syms) as path:
+    with market.csv_dir(syms, extra=bool(case.get('extra_cols'))) as path:
         first_ds = None
         for adjust in (True, False):
             if case.get('all_files'):
@@ -240,6 +241,22 @@ def run_case(case):
                         if not same(float(g), exp):
                             raise Violation('handler %s(%s, EQ:%s) adjust=%s on a source first asked for closing-price ranges '
                                             'returned %r; point-in-time answer is %r' % (k, t, name, adjust, g, exp))
+            # instants inside the repeated hour of an autumn clock change, written in that zone (unambiguous instants whose
+            # wall-clock reading occurs twice that night)
+            for utc_, zone_ in ((pd.Timestamp('2020-11-01 05:30:00.4', tz='UTC'), 'America/New_York'),
+                                (pd.Timestamp('2020-10-25 00:30:00.4', tz='UTC'), 'Europe/London')):
+                for name, rows in syms.items():
+                    obs = observations(rows, adjust)
+                    if not obs or min(o_[0] for o_ in obs) > utc_:
+                        continue
+                    exp = lookup(obs, utc_)[0]
+                    t_ = utc_.tz_convert(zone_)
+                    for k, g in (('bid', dh.get_asset_latest_bid_price(t_, 'EQ:' + name)), ('ask', dh.get_asset_latest_ask_price(t_, 'EQ:' + name)),
+                                 ('mid', dh.get_asset_latest_mid_price(t_, 'EQ:' + name)), ('get_bid', ds.get_bid(t_, 'EQ:' + name))):
+                        if not same(float(g), exp):
+                            raise Violation('%s(%s, EQ:%s) adjust=%s returned %r; point-in-time answer is %r (the instant lies in the '
+                                            'repeated hour of that zone\'s clock change)' % (k, t_, name, adjust, g, exp))
+                    cls.add('query_in_the_repeated_hour_of_a_clock_change')
             for t in queries[:3]:
                 u = dh.get_asset_latest_bid_price(t, 'EQ:NOPE')
                 m_ = dh.get_asset_latest_mid_price(t, 'EQ:NOPE')
@@ -322,6 +339,8 @@ def run_case(case):
         cls.add(k)
     if case.get('all_files'):
         cls.add('all_files_of_directory')
+    if case.get('extra_cols'):
+        cls.add('files_with_extra_vendor_columns')
     cls.add('symbols_%d' % len(syms))
     return Result(sorted(cls), nontrivial=nt > 0 and changed, info={'queries': nq, 'nontrivial_queries': nt})
 
@@ -329,7 +348,9 @@ def run_case(case):
 @st.composite
 def cases(draw):
     names = draw(market.symbol_names(1, 2))
-    d0 = draw(st.dates(min_value=D.date(1995, 1, 1), max_value=D.date(2039, 6, 1)))
+    d0 = draw(st.one_of(st.dates(min_value=D.date(1995, 1, 1), max_value=D.date(2039, 6, 1)),
+                        st.dates(min_value=D.date(1995, 1, 1), max_value=D.date(2039, 6, 1)),
+                        st.sampled_from([D.date(2020, 10, 12), D.date(2020, 10, 1), D.date(2020, 9, 21)])))      # incl. autumn 2020
     flags = [f for f in ('gappy', 'missing', 'weekend_rows', 'shuffled') if draw(st.booleans())]
     seed = draw(st.integers(0, 2 ** 31))
     syms = {}
@@ -410,7 +431,7 @@ def cases(draw):
             'cut_seed': draw(st.integers(0, 1000)), 'cut_adjust': draw(st.booleans()), 'flags': flags,
             'interleave': draw(st.lists(st.tuples(st.integers(0, 1), st.integers(0, 24), st.sampled_from([0, 1, 7, 3600, -0.000001, 0.000001, 0.25, -0.5])).map(list),
                                         min_size=6, max_size=20)) if draw(st.booleans()) else [],
-            'naive_first': draw(st.sampled_from([False, False, True])), 'session_dynamic': draw(st.booleans()),
+            'naive_first': draw(st.sampled_from([False, False, True])), 'extra_cols': draw(st.sampled_from([False, False, True])), 'session_dynamic': draw(st.booleans()),
             'all_files': draw(st.sampled_from([False, False, True])), 'session_built': draw(st.sampled_from([False, False, True])),
             'zones': draw(st.lists(st.sampled_from([None, None, 'Europe/Berlin', 'America/New_York', 'Asia/Tokyo']), min_size=1, max_size=5))}
 
